@@ -4,8 +4,14 @@ type EventFn[T any] func(data T)
 
 type Unsubscribe func()
 
+// A subscription is identified by its pointer, so that it can be removed
+// no matter how many other subscribers have come and gone since.
+type subscription[T any] struct {
+	fn EventFn[T]
+}
+
 type Event[T any] struct {
-	subscribers []EventFn[T]
+	subscribers []*subscription[T]
 }
 
 func New[T any]() *Event[T] {
@@ -14,10 +20,19 @@ func New[T any]() *Event[T] {
 
 // Adds a subscriber to the event.
 func (e *Event[T]) Subscribe(fn EventFn[T]) Unsubscribe {
-	index := len(e.subscribers)
-	e.subscribers = append(e.subscribers, fn)
+	sub := &subscription[T]{fn: fn}
+	e.subscribers = append(e.subscribers, sub)
 	return func() {
-		e.subscribers = append(e.subscribers[:index], e.subscribers[index+1:]...)
+		// Remove by identity. The position captured at subscription time is stale as soon as an
+		// earlier subscriber has unsubscribed: it removed the wrong subscriber or panicked.
+		for i, s := range e.subscribers {
+			if s == sub {
+				remaining := make([]*subscription[T], 0, len(e.subscribers)-1)
+				remaining = append(remaining, e.subscribers[:i]...)
+				e.subscribers = append(remaining, e.subscribers[i+1:]...)
+				return
+			}
+		}
 	}
 }
 
@@ -26,6 +41,6 @@ func (e *Event[T]) Subscribe(fn EventFn[T]) Unsubscribe {
 // so be aware of potential race conditions.
 func (e *Event[T]) Fire(data T) {
 	for _, subscriber := range e.subscribers {
-		go subscriber(data)
+		go subscriber.fn(data)
 	}
 }
